@@ -135,7 +135,9 @@ def job_add_noise(T, Fc, ntype, prior):
         rr, _ = core.check([RV(reest) != want])
         recs.append(q(name + ':re-estimate-iff-not-first', rr, trivial=True, detail=f"{reest} sigma_clip calls"))
         if rr == 'sat':
-            recs.append(cex('C11:add_noise:estimates', f'noise estimates: {reest} re-estimates, expected {want}', pl, name=name + ':re-estimate-iff-not-first'))
+            _, mm = core.check(base)
+            pri = [core.model_float(mm, z3.Real('nm0')), core.model_float(mm, z3.Real('ns0'))] if mm is not None else [5.0, 0.0]
+            recs.append(cex('C11:add_noise:estimates', f'noise estimates: {reest} re-estimates, expected {want}', dict(pl, prior_estimates=pri), name=name + ':re-estimate-iff-not-first'))
     r, _ = core.check(pre + [z3.Not(z3.Or(*conds))])
     recs.append(q(f"{tag}:split-complete", r, leaves=len(leaves)))
     return recs
@@ -369,6 +371,23 @@ def replay_add_noise(p):
         msgs.append('returned array != data_after - data_before')
     if p['prior'] != 'content' and fr.noise_mean != xm:
         msgs.append('first-noise estimate != requested mean')
+    # estimates after noise is added to a frame that is NOT empty (whatever its recorded estimates were, unless both
+    # are zero): the sigma-clipped re-estimate of the data
+    from astropy.stats import sigma_clip
+    for (nm0, ns0) in [tuple(p.get('prior_estimates', (5.0, 0.0))), (5.0, 0.0), (0.0, 2.0), (3.0, 1.0)]:
+        if nm0 == 0 and ns0 == 0:
+            continue
+        g = stg.Frame(fchans=32, tchans=16, df=gdf, dt=gdt, fch1=4096.0, seed=3)
+        g.data = np.full(g.shape, 5.0) + np.arange(32)[None, :] * 0.01
+        g.noise_mean, g.noise_std = nm0, ns0
+        if p['ntype'] == 'chi2':
+            g.add_noise(xm)
+        else:
+            g.add_noise(xm, xs, xmin if p['ntype'] == 'truncated' else None, noise_type='gaussian')
+        c = sigma_clip(g.data, sigma=3, maxiters=5, masked=False)
+        if not (np.isclose(g.noise_mean, np.mean(c)) and np.isclose(g.noise_std, np.std(c))):
+            msgs.append(f"frame with content and recorded estimates ({nm0}, {ns0}): after adding noise the estimates are ({g.noise_mean!r}, {g.noise_std!r}), the sigma-clipped data give ({np.mean(c)!r}, {np.std(c)!r})")
+            break
     return bool(msgs), '; '.join(msgs) or 'noise bookkeeping ok'
 
 
